@@ -18,6 +18,7 @@ TECHNIQUE = "Lean 4 proof (list induction, loop invariants) + differential corre
 RULE = ("alignments of 0..5 rows x 0..9 columns with gap runs (leading/trailing/internal); every integer argument from "
         "{-1,0,1,L-1,L,L+1} + random; site lists with repeats in any order; partitions by ranges with modulo (incl. codon "
         "partitions, overlaps, gaps, huge modulo); non-trivial = at least one argument is a boundary value")
+NEEDS_BINARY = True
 PARTIAL = ["not yet Lean theorems (checked by the independent predicate on the implementation and by correspondence): "
            "RefSites, Transpose twice, Split re-interleaving, Concat/Append (modelled in C01), TrimSequences (C01)",
            "CLI glue of cmd/subseq, subsites, split, extract is exercised on the built binary only for the --ref-seq path"]
@@ -87,9 +88,28 @@ def gen(rng, tier):
                                           rng.choice([1, 2, 3, 0, -1, 9223372036854775807, 4611686018427387904]))
                         for _ in range(rng.randint(0, 4))]
             yield Case("split", [rs, ";".join(rngs) if rngs else "_"], True, "split")
+    for c in gen_cli(rng, tier):
+        yield c
+
+
+def gen_cli(rng, tier):
+    N = 40 if tier == "quick" else 300
+    for _ in range(N):
+        rows, n, L = rand_al(rng, minrows=1)
+        if L < 1:
+            continue
+        name = rng.choice([r[0] for r in rows] + ["zz"])
+        ung = max(len(r[1].replace("-", "")) for r in rows)
+        stdin = "".join(">%s|%s|" % r for r in rows)
+        argv = ["subseq", "--ref-seq", name, "-s", str(bnd(rng, ung)), "-l", str(bnd(rng, ung))]
+        if rng.random() < 0.3:
+            argv.append("-r")
+        yield Case("cli_subseq", [stdin] + argv, True, "cli-subseq-refseq")
 
 
 def shrink(c):
+    if c.op.startswith("cli"):
+        return
     a = list(c.args)
     rows = [] if a[0] == "_" else [tuple(r.split(":", 1)) for r in a[0].split(",")]
     for i in range(len(rows)):
